@@ -137,6 +137,10 @@ using List = gmlc::libguarded::rcu_list<Elem, std::mutex, CountingAlloc<Elem>>;
 #elif defined(MODE_C13)
 using Elem = Tracked;
 using List = gmlc::libguarded::rcu_list<Elem, std::mutex, CountingAlloc<Elem>>;
+#elif defined(ALLOC_FAULTS)
+// C05 programs with an allocator whose allocations may fail (fault enumeration)
+using Elem = Val;
+using List = gmlc::libguarded::rcu_list<Elem, std::mutex, CountingAlloc<Elem>>;
 #else
 using Elem = Val;
 using List = gmlc::libguarded::rcu_list<Elem>;
@@ -795,10 +799,13 @@ void make_items(const Options& o, std::vector<Item>& items)
         it.name = text(p);
         it.body = [p] { body(p); };
         it.bounds = hx::tier_bounds(o, Pq, Pt);
-#if defined(MODE_C13)
+#if defined(MODE_C13) || defined(ALLOC_FAULTS)
         // every allocation made by a client operation may fail (one failure per run; thorough: two)
         it.enumerate_faults = true;
         it.fault_mask = (1u << hx::SITE_ALLOC) | (1u << hx::SITE_CTOR);
+#endif
+#if defined(ALLOC_FAULTS)
+        it.bounds.P = thorough ? 2 : 1;  // the fault is the deviation of interest
 #endif
         items.push_back(it);
     };
@@ -968,6 +975,8 @@ int main(int argc, char** argv)
     return run_main(argc, argv, "C13", "C13", make_items);
 #elif defined(MODE_C14)
     return run_main(argc, argv, "C14", "C14_rcu", make_items);
+#elif defined(ALLOC_FAULTS)
+    return run_main(argc, argv, "C05", "C05_allocfaults", make_items);
 #else
     return run_main(argc, argv, "C05", "C05", make_items);
 #endif
